@@ -390,6 +390,24 @@ def run(ck, F):
             else:
                 ck.violation("R4", f"loop@{_ord(b, cyc)}", site, f"loop of unrecognised shape (calls: {sorted(set(calls))[:6]}): termination not established", fn=b["path"])
     ck.floor("R4", "loops", n_loops, 6)
+    # .. and an iterator loop ends because the iterator does: no iterator of the library is made from a source without an end of its own
+    # (`successors`, `repeat`, `from_fn`, `cycle`) unless its step is well-founded (towards the root of the finite XML tree ..) or it is cut by `take`
+    endless = [h for h in scans.scan_endless_iterators(F.lib) if in_scope(h[0])]
+    for (fn, site, src, verdict) in endless:
+        short = src.rsplit("::", 1)[-1]
+        if verdict == "endless":
+            ck.violation("R4", f"endless-iterator:{short}:{fn.rsplit('::', 1)[-1]}", site,
+                         f"`{short}` makes an iterator that ends only when its step function says so, and the step follows what the input says (a chain of "
+                         f"references, a name looked up again): a cycle in the input keeps it running for ever", fn=fn)
+        else:
+            ck.ok("R4", f"endless-iterator:{short}:{fn.rsplit('::', 1)[-1]}", site, f"`{short}`: {verdict}", fn=fn)
+    if not endless:
+        ck.ok("R4", "endless-iterator:none", "-", "no iterator of the library is made from a source without an end of its own")
+    cverd = {h[0]: h[3] for h in scans.scan_endless_iterators(factsmod.controls())}
+    if cverd.get("c13_endless_successors") == "endless" and cverd.get("c13_ascent") == "well-founded":
+        ck.ok("R4", "endless-iterator:positive-control", "engine/controls/src/lib.rs", f"controls: {sorted(cverd.items())}")
+    else:
+        ck.undecided("R4", "endless-iterator:positive-control", "engine/controls/src/lib.rs", f"the scan for endless iterators reports {sorted(cverd.items())} on the controls")
 
 
 def _ord(b, cyc):
